@@ -9,7 +9,7 @@ Crash cases: `plan <op…>` (records the planned history), `ref n => <dump>` (re
 planned calls), `recovered <acked> <issued> => <dump>|openfail` (real store re-opened after SIGKILL).
 Deadline cases (the call's context ends while it runs): `dl <mode> <op…> => <result>` (`error` = the context's
 error / ErrTxDone: not acknowledged), `dlref => <result> <dump>` (a second real store that executes, without
-deadline, the calls that were acknowledged), `dlstate => <dump>` (the store under test after the call),
+deadline, the calls that were acknowledged), `dlstate after <result> <op…> => <dump>` (the store under test after the call),
 `dlreopen => <dump>|openfail` (closed and re-opened).
 DIFF: model result / table dump differs.  SPEC (property statement, decided on the implementation's own
 output): tracker rows inconsistent with the data tables, listing inconsistent with the data tables,
@@ -207,7 +207,7 @@ def step' (d : DState) (toks : List String) (rhs : String) : DState × Verdict :
         if (implOk ∧ resTok r.2 = "ok" ∨ resTok r.2 = res) ∧ dumpOf r.1 d.keys = dump then (d', .ok) else (d', .diff m)
     | none, _ => (d, .bad "dlref without dl")
     | _, _ => (d, .bad "dlref rhs")
-  | ["dlstate"] =>
+  | "dlstate" :: _ =>   -- the lhs repeats result and call (for the reader of a failing line); `pend` has them
     match d.pend with
     | none => (d, .bad "dlstate without dl")
     | some (op, res) =>
